@@ -907,7 +907,7 @@ def run_reader(chunks, max_steps=100000):
     conn._connection_state = ConnectionState.ACTIVE
     conn._socket_reader = _ChunkReader(chunks)
 
-    class _Log:
+    class _Log(C.LogBase):
         def exception(self, *a, **k):
             import sys
             e = sys.exc_info()[1]
